@@ -13,6 +13,9 @@ Direct oracle (the property's own statement on the implementation's output):
   * sliding-window maximum of the (time, bytes) trace  ≤  L·T + burst   (burst from the Lean definition, `rate.burst`);
   * no debt is forgiven by the cap for requests ≤ L/4;
   * the general bound  Σ bytes ≤ L·(Σ latency + Σ sleep) + L·(threshold + eps)  for every stretch of calls.
+Size literals (`-L` / `--limit-rate 1.5Mi` → `_rate_limit` → limit → piece sizes of the four commands): harness/impl/c20_sizelit.py
+(generated literals through the real `_rate_limit`, the real argparse parsers and the real `main()`, against the compiled model
+`rate.parse*` and an independent Fraction oracle).
 Defect candidate D16 (several threads with underlying latency exceed the limit N-fold) is reported with
 sig `ratelimit:multi-stream-latency-overlap` for exactly that class of histories (≥ 2 threads and non-zero latency).
 """
@@ -845,6 +848,9 @@ def run(out, drv, info):
         out.extra['s3_digest_pass_observation'] = s3_digest_observation()
     except Exception as e:  # noqa: BLE001
         out.extra['s3_digest_pass_observation'] = f'not observed: {type(e).__name__}: {e}'
+    # ---- the limit as the user writes it (-L / --limit-rate <literal>) and the piece sizes derived from it (harness/impl/c20_sizelit.py)
+    from ..impl import c20_sizelit
+    c20_sizelit.run_stream(out, drv, info)
     out.extra['not_checked_here'] = ('limits 1–3 B/s: the one-byte chunk is more than a quarter of the limit (outside the property\'s quantifier; with limit 1 the cap '
                                      'forgives half a second per byte — Lean: C20.low_limit_forgives); S3 upload_stream hashes the stream through the limiter in 640 000-byte reads '
                                      '(backend code, requests larger than the chunk size the command chose)')
@@ -938,6 +944,9 @@ def replay(path, drv):
         for v in out.v:
             print('ORACLE', v)
         return 1 if out.v else 0
+    if str(rp.get('kind', '')).startswith('sizelit'):
+        from ..impl import c20_sizelit
+        return c20_sizelit.replay_case(rp, drv)
     print('replay kind not supported:', rp.get('kind'))
     return 2
 
